@@ -79,54 +79,25 @@ where
     | nil => exact absurd rfl h
     | cons _ _ => rfl
 
-theorem nsK_drop2 (k : Nat) : (nsLit ++ natStr k).drop 2 = natStr k := by
-  simp [nsLit]
-
 /-- the cleaned user map satisfies the invariant -/
 theorem userMapOK_MapOK (env : NsEnv) (m : List (Pfx × Str)) (h : userMapOK env m = true) :
     MapOK env (userDefault m) (serializerNsMap m) := by
-  simp only [userMapOK, Bool.and_eq_true] at h
-  obtain ⟨⟨hns, henum⟩, hdecl⟩ := h
+  simp only [userMapOK] at h
   have hnd : NoDupKeys (serializerNsMap m) := by
     unfold serializerNsMap
     split
     · simp [NoDupKeys]
     · exact cleanPrefixes_nodup m
-  refine ⟨hnd, ?_, ?_, List.all_eq_true.mp hdecl, ?_, ?_⟩
-  · intro k _
-    cases hg : dget (serializerNsMap m) (some (nsLit ++ natStr k)) with
-    | none => rfl
-    | some u =>
-      have hmem := dget_some_mem _ _ _ hg
-      have := (List.all_eq_true.mp hns) _ hmem
-      simp only [Bool.not_eq_true', Bool.and_eq_false_iff] at this
-      rcases this with (h1 | h1) | h1
-      · rw [isPrefixOf_nsK] at h1; cases h1
-      · rw [nsK_drop2] at h1
-        have := natStr_ne_nil k
-        cases hk : natStr k with
-        | nil => exact absurd hk this
-        | cons _ _ => rw [hk] at h1; simp at h1
-      · rw [nsK_drop2] at h1
-        have hall : (natStr k).all (fun c => decide (48 ≤ c.toNat) && decide (c.toNat ≤ 57)) = true := by
-          simp only [List.all_eq_true]
-          intro c hc
-          have := natStr_digits k c hc
-          simpa [isDigitChar] using this
-        rw [hall] at h1; cases h1
-  · intro e he u hg
-    have := (List.all_eq_true.mp henum) e he
-    rw [hg] at this
-    simpa using this
+  refine ⟨hnd, List.all_eq_true.mp h, ?_, ?_⟩
   · intro u hu
     right
     unfold userDefault
     exact hu.symm
-  · unfold serializerNsMap at hdecl ⊢
+  · unfold serializerNsMap at h ⊢
     split
     · intro s u hs; simp [dget] at hs
     · rename_i hne
-      simp only [hne] at hdecl
-      exact cleanPrefixes_nodflt m (by simpa using hdecl)
+      simp only [hne] at h
+      exact cleanPrefixes_nodflt m (by simpa using h)
 
 end Proofs.UserMap
